@@ -146,3 +146,36 @@ Theorem C07_merged_heuristic_refuted :
     /\ tree_of (w_objs w') pc' = tree_of (w_objs w') newp.
 Proof. exact merged_heuristic_refuted. Qed.
 Print Assumptions C07_merged_heuristic_refuted.
+
+(* ------------------------------------------------------------------------------------------
+   Whole-command round trip (proof in Proofs/PopPushRoundTrip.v): `stg pop -n k` followed by
+   `stg push -n k` gives back exactly the stack there was - the SAME commits (every push is a
+   fast-forward, nothing is re-created), the same three lists, the branch on the same commit,
+   the same work tree, a clean index.
+   ------------------------------------------------------------------------------------------ *)
+From StgV Require Import Model.StackSpec Model.LogSpec Proofs.PopPushRoundTrip.
+
+Theorem C07_pop_push_roundtrip :
+  forall lower_s w st0 k w1 w2,
+    Inv6 w ->
+    cur_state w = Some st0 ->
+    (1 <= k)%nat -> (k <= length (s_applied st0))%nat ->
+    step lower_s w (CPop None (Some (Z.of_nat k)) false false false) = (w1, X0) ->
+    step lower_s w1 (CPush None (Some (Z.of_nat k)) false false false false false false None) = (w2, X0) ->
+    (exists st2, cur_state w2 = Some st2
+                 /\ s_applied st2 = s_applied st0 /\ s_unapplied st2 = s_unapplied st0
+                 /\ s_hidden st2 = s_hidden st0
+                 /\ s_head st2 = w_branch w
+                 /\ (forall n, pm_get (s_patches st2) n = pm_get (s_patches st0) n))
+    /\ w_branch w2 = w_branch w /\ w_wt w2 = w_wt w /\ w_unmerged w2 = false.
+Proof. exact pop_push_roundtrip. Qed.
+Print Assumptions C07_pop_push_roundtrip.
+
+(* the premises are satisfiable: three applied patches on different cells, k = 2 *)
+Theorem C07_pop_push_nonvacuous :
+  exists w st0 w1 w2,
+    cur_state w = Some st0 /\ length (s_applied st0) = 3%nat
+    /\ step (fun s => s) w (CPop None (Some 2%Z) false false false) = (w1, X0)
+    /\ step (fun s => s) w1 (CPush None (Some 2%Z) false false false false false false None) = (w2, X0).
+Proof. exact pop_push_nonvacuous. Qed.
+Print Assumptions C07_pop_push_nonvacuous.
